@@ -44,7 +44,10 @@ Definition set_metrics (f : family) (ms : list metric) : family :=
 (* the `for n, lp := range s[i].Label` loop of MetricSorter.Less: Some b = returned b inside the loop *)
 Fixpoint label_loop (li lj : list (str * str)) : option bool :=
   match li, lj with
-  | (_, vi) :: ri, (_, vj) :: rj => if negb (str_eqb vi vj) then Some (str_ltb vi vj) else label_loop ri rj
+  | (ni, vi) :: ri, (nj, vj) :: rj =>
+      if negb (str_eqb ni nj) then Some (str_ltb ni nj)          (* label NAME first ... *)
+      else if negb (str_eqb vi vj) then Some (str_ltb vi vj)     (* ... then the value *)
+      else label_loop ri rj
   | _, _ => None
   end.
 
